@@ -111,6 +111,14 @@ def exhaustive(tier):
                     continue
                 for v in ("AbC", "abc", "ABC", " x ", "X", "\u00df", ""):
                     yield {"spec": {"kind": kind, "req": False, "opts": dict(base, transform_case=spelling, **extra), "validator": None}, "value": v}
+    # required typed containers with a non-empty value (their own result is then emptied in place and offered again)
+    leaf = lambda k, **o: {"kind": k, "req": False, "opts": o, "validator": None}
+    for item in (leaf("int"), leaf("str"), leaf("bool"), leaf("bytes", encoding="hex"), leaf("port")):
+        for n in (1, 2, 3):
+            vals = {"int": [1, 2, 3], "str": ["a", "b", "c"], "bool": [True, False, True], "bytes": [b"a", b"b", b"c"], "port": [80, 81, 82]}[item["kind"]][:n]
+            yield {"spec": {"kind": "list", "req": True, "opts": {}, "validator": None, "item": item}, "value": vals}
+            if item["kind"] != "bytes":
+                yield {"spec": {"kind": "dict", "req": True, "opts": {}, "validator": None, "keyf": leaf("str"), "valuef": item}, "value": {"k%d" % i: v for i, v in enumerate(vals)}}
     # byte strings of every length up to 130 and a few longer ones (line-wrapping encoders change behaviour at 57 / 76)
     for enc in ("base64", "hex"):
         for n in list(range(0, 131, 1 if tier != "quick" else 3)) + [57, 58, 76, 77, 114, 115, 171, 172, 300, 1000]:
@@ -282,6 +290,18 @@ def run_case(case, R):
                             lambda: "%s: value read back %r re-validates to %r" % (kind, back, re_val))
                 except Exception as exc:
                     R.fail("disk", kind + ":reload-rejected", "%s: value read back from disk %r is rejected: %r" % (kind, back, exc))
+
+
+        # exactness does not depend on where a value comes from: the field's OWN earlier result, emptied in place, is an
+        # empty container like any other and a required field rejects it
+        if kind in ("list", "dict") and spec.get("req") and isinstance(got, (cc.ListProxy, cc.DictProxy)) and len(got):
+            got.clear()
+            R.label("class:own-result-emptied")
+            try:
+                out = field.validate(cfg, got)
+                R.fail("exact", kind + ":accepted-invalid:own-result-emptied", "%s%r (required) accepts its own earlier result after it was emptied in place: %r" % (kind, spec.get("opts"), out))
+            except Exception:
+                R.checks += 1
 
 
 def _disk_exact(a, b):
